@@ -76,7 +76,11 @@ FilterCopyClauses(e) ==
       got == PathsOf(e.after) \ PathsOf(e.before)
       walk == ToSet(f.walk)
       selNaive == {tree[i].p : i \in {k \in DOMAIN tree : SelNaive(f.inc, f.exc, k)}}
-      ondemand == {p \in got : p \notin selNaive /\ Has(tree, p)}
+      selIncr == {tree[i].p : i \in {k \in DOMAIN tree : f.incr[k]}}
+      \* directories that were written although the selection that explains the copied set did not
+      \* select them: created on demand for a selected descendant
+      selUsed == IF got = naive THEN selNaive ELSE selIncr
+      ondemand == {p \in got : p \notin selUsed /\ Has(tree, p)}
   IN Cl(~e.ok, "C16.filteredCopyFailed")
      \cup (IF ~e.ok THEN {}
            ELSE (IF got = naive THEN {}
